@@ -101,7 +101,9 @@ func (r *Reconciler) Reconcile(id controller.ID) (controller.Result, error) {
 			log.Infof("Elected new master '%s' in term %d for Configuration '%s'", config.Status.Mastership.Master, config.Status.Mastership.Term, config.ID)
 		}
 
-		// Update the Configuration status
+		// Update the Configuration status. The applied values are not changed here: do not write them back from
+		// a read that a concurrent apply may have outdated.
+		config.Status.Applied.Values = nil
 		err = r.configurations.UpdateStatus(ctx, config)
 		if err != nil {
 			if !errors.IsNotFound(err) && !errors.IsConflict(err) {
